@@ -22,19 +22,20 @@ from .pysrc import ClassInfo, ClassRef, FuncInfo, Unknown, dotted
 from .types import FCtx, walk_own
 
 NUM_ANN = {"int", "float", "bool", "Length", "Emu", "Pt", "Inches", "Cm", "Mm", "Centipoints", "numbers.Number"}
-NUM_FUNCS = {"len", "int", "float", "round", "abs", "sum", "min", "max", "ord", "Emu", "Pt", "Inches", "Cm", "Mm",
+NUM_FUNCS = {"len", "int", "float", "round", "abs", "sum", "min", "max", "ord", "chr", "Emu", "Pt", "Inches", "Cm", "Mm",
              "Centipoints", "Length", "bool", "hash", "id", "divmod"}
 STR_PASSTHRU = {"str", "unicode", "repr", "format"}
 
 
 class Prov:
-    MAX_DEPTH = 9
+    MAX_DEPTH = 16
 
     def __init__(self, prog, M, T, public_pred=None):
         self.prog, self.M, self.T = prog, M, T
         self._callsites = None
         self._memo = {}
         self._active = set()
+        self._cuts = 0
         self.public_pred = public_pred or self._default_public
 
     # -- call-site index -------------------------------------------------------------------------
@@ -60,9 +61,11 @@ class Prov:
                         rt = self.T.expr(n.func.value, fc)
                         if rt and all(a[0] in ("prim", "list", "tuple", "ext") for a in rt):
                             continue
-                        for g in byname.get(n.func.attr, []):
-                            if g.cls is not None:
-                                idx.setdefault(g, []).append((f, n, True))
+                        cands = [g for g in byname.get(n.func.attr, []) if g.cls is not None]
+                        if len(cands) > 6:
+                            continue
+                        for g in cands:
+                            idx.setdefault(g, []).append((f, n, True))
             self._callsites = idx
         return self._callsites
 
@@ -72,6 +75,12 @@ class Prov:
             return False
         if f.module.name.startswith(("pptx.oxml", "pptx.opc.oxml")):
             return False
+        if f.name == "__init__":
+            # a constructor is user-facing only when the library never constructs the class itself
+            # (ChartData, CategoryChartData ...); otherwise its arguments are traced through the call sites
+            if f.cls is not None and f.cls.name.startswith("_"):
+                return False
+            return not self.callsites().get(f)
         if f.cls is not None and f.cls.name.startswith("_") and f.cls.name not in ():
             # private classes are still handed to users (e.g. _Cell, _Run, _Paragraph): public methods count
             return True
@@ -83,16 +92,19 @@ class Prov:
         if depth > self.MAX_DEPTH:
             return {("UNKNOWN", chain + ("depth bound",))}
         key = (id(e), fc.fn, fc.selfcls)
-        if key in self._active:
-            return set()
         if key in self._memo:
             return self._memo[key]
+        if key in self._active:
+            self._cuts += 1
+            return set()
         self._active.add(key)
+        cuts0 = self._cuts
         try:
             r = self._origin(e, fc, depth, chain)
         finally:
             self._active.discard(key)
-        if depth == 0 or len(self._active) == 0:
+        # a result computed without cutting a cycle below it is complete: memoise (context-insensitive)
+        if self._cuts == cuts0 or not self._active:
             self._memo[key] = r
         return r
 
@@ -188,7 +200,8 @@ class Prov:
                                 if isinstance(n.value, (ast.Tuple, ast.List)) and len(n.value.elts) == len(t.elts):
                                     out |= self.origin(n.value.elts[i], fc, depth + 1, ch)
                                 else:
-                                    out |= self.origin(n.value, fc, depth + 1, ch)
+                                    comp = self._tuple_component(n.value, i, len(t.elts), fc, depth, ch)
+                                    out |= comp if comp is not None else self.origin(n.value, fc, depth + 1, ch)
             elif isinstance(n, ast.AugAssign) and isinstance(n.target, ast.Name) and n.target.id == e.id:
                 assigned = True
                 out |= self.origin(n.value, fc, depth + 1, ch)
@@ -245,6 +258,25 @@ class Prov:
         if not isinstance(v, Unknown):
             return {("CONST", ch)}
         return {("UNKNOWN", ch)}
+
+    def _tuple_component(self, value, i, n, fc, depth, ch):
+        """Origins of the i-th component of a call whose callees all return n-tuples literally."""
+        if not isinstance(value, ast.Call):
+            return None
+        cal = [c for c, _ in self.T.callees(value, fc) if isinstance(c, FuncInfo)]
+        if not cal:
+            return None
+        out = set()
+        for g in cal:
+            rets = [r for r in walk_own(g.node) if isinstance(r, ast.Return) and r.value is not None]
+            if not rets:
+                return None
+            for r in rets:
+                if isinstance(r.value, ast.Tuple) and len(r.value.elts) == n:
+                    out |= self.origin(r.value.elts[i], FCtx(g, g.cls), depth + 1, ch + ("-> %s[%d]" % (g.qualname, i),))
+                else:
+                    return None
+        return out
 
     def _ann_numeric(self, ann):
         if ann is None:
@@ -333,6 +365,9 @@ class Prov:
                         classes.append(c)
             if not classes:
                 return {("UNKNOWN", ch + ("attribute %s on an untyped receiver" % e.attr,))}
+        having = [c for c in classes if self._has_member(c, e.attr)]
+        if having and len(having) < len(classes):
+            classes = having  # duck typing: a receiver lacking the member cannot be the run-time type here
         for c in classes:
             g = prog.lookup(c, e.attr)
             if g is not None and g.kind in ("property", "lazyproperty"):
@@ -347,6 +382,9 @@ class Prov:
                     st = dd[0].st
                     if isinstance(st, ClassRef) and (prog.is_enum(st.cls)):
                         out.add(("TOKEN", ch))
+                    elif isinstance(st, ClassRef) and st.cls.name in ("XsdId",):
+                        # xsd:ID is an NCName: no quote, ampersand or angle bracket in a schema-valid document
+                        out.add(("TOKEN", ch + ("xsd:ID attribute %s/@%s" % (c.name, dd[0].attr),)))
                     elif isinstance(st, ClassRef) and self._st_is_string(st.cls):
                         out.add(("DOC", ch + ("document attribute %s/@%s" % (c.name, dd[0].attr),)))
                     else:
@@ -377,6 +415,13 @@ class Prov:
             elif a[0] == "lxml":
                 out.add(("DOC", ch + ("lxml element attribute",)))
         return out or {("UNKNOWN", ch)}
+
+    def _has_member(self, c, name):
+        if self.prog.lookup(c, name) is not None or self.prog.lookup_attr(c, name) is not None:
+            return True
+        if self.M.is_oxml_class(c) and any(x.prop == name for x in self.M.attr_decls(c)):
+            return True
+        return bool(self._field_stores(c, name))
 
     def _st_is_string(self, c):
         names = [k.name for k in self.prog.mro(c)]
